@@ -11,9 +11,15 @@ Model: lean/St4sd/Model/ArgSubst.lean via drv-c10 (``resolve`` = repaired single
 
 Oracle (model independent): the argument string is tokenised by the loader's own reference grammar
 (maximal run of ``[.a-zA-Z0-9_/-]`` followed by ``:method``); a token that is a spelling of a declared
-``ref``/``output`` reference is replaced by that reference's value (path, or file contents without the trailing
-newlines), everything else is copied; the result must be the same for every declaration order; a reference is
-reported unused iff no token spells it.
+``ref``/``output`` reference is replaced by that reference's value (path, or the file's contents — every character of
+them, leading/trailing blanks, tabs, carriage returns and blank lines included — minus the newline characters that
+terminate the file), everything else is copied; the result must be the same for every declaration order; a
+reference is reported unused iff no token spells it.
+
+Values are not opaque: files are written byte-exact into the working directories (also of the loop instances of a
+real DoWhile, for ``:loopref``/``:loopoutput`` and for ``:ref``/``:output`` through a placeholder), the real
+``DataReference.resolve`` reads them, the model gets the *raw* contents and computes the value itself
+(``ArgSubst.Source.value?``: ``outputValue``, ``loopInstanceValue``), the oracle computes it a third time.
 """
 from __future__ import annotations
 
@@ -25,6 +31,7 @@ import shutil
 import tempfile
 import time
 
+LOOP_IMPORT, LOOP_STOP = "zzloop", "zzstop"
 METHODS = ['copy', 'link', 'ref', 'copyout', 'extract', 'output', 'loopref', 'loopoutput']
 NAMECH = r"[.a-zA-Z0-9_/-]"
 TOKEN = re.compile(r"(%s+):(copyout|copy|link|ref|extract|output|loopref|loopoutput)" % NAMECH)
@@ -51,18 +58,76 @@ def read_ref(text, consumer_stage):
                 relActive=(st is None or st == consumer_stage))
 
 
-def value_of(ref, files):
-    """the reference's own value with the instance directory written $I"""
+def strip_final_newlines(text):
+    """the contents of a file as a command-line value: the text without the newline character(s) that terminate
+    it; nothing else is removed"""
+    n = len(text)
+    while n > 0 and text[n - 1] == "\n":
+        n -= 1
+    return text[:n]
+
+
+def text_mode(text):
+    """the :loopoutput branch reads in text mode (universal newlines)"""
+    return text.replace("\r\n", "\n").replace("\r", "\n")
+
+
+def is_looped(ref, case):
+    lp = case.get('loop')
+    return bool(lp) and ref['stage'] is not None and ref['stage'] == lp['stage'] and \
+        ref['path'].split('/')[0] in lp['names']
+
+
+def places_of(ref, case):
+    """(paths with the instance directory written $I, keys into case['files']) the reference denotes: one per loop
+    instance for the loop methods, the latest loop instance for other methods on a looped producer, else one"""
     if ref['stage'] is None:
-        loc = "$I/" + ref['path']
-        key = ref['path']
+        return ["$I/" + ref['path']], [ref['path']]
+    name, _, frel = ref['path'].partition('/')
+    if is_looped(ref, case):
+        n = case['loop']['iters']
+        its = range(n) if ref['method'] in ('loopref', 'loopoutput') else [n - 1]
+        comps = ["%d#%s" % (i, name) for i in its]
     else:
-        loc = "$I/stages/stage%d/%s" % (ref['stage'], ref['path'])
-        key = "stage%d.%s" % (ref['stage'], ref['path'])
+        comps = [name]
+    paths = ["$I/stages/stage%d/%s%s" % (ref['stage'], c, ("/" + frel) if frel else "") for c in comps]
+    keys = ["stage%d.%s/%s" % (ref['stage'], c, frel or "out.stdout") for c in comps]
+    return paths, keys
+
+
+def value_of(ref, case):
+    """the reference's own value with the instance directory written $I (the oracle's statement)"""
+    paths, keys = places_of(ref, case)
     if ref['kind'] == 'output':
-        content = files.get(key)
-        return "" if content is None else content.rstrip('\n')
-    return loc
+        contents = [case['files'].get(k) for k in keys]
+        if any(c is None for c in contents):
+            return ""                       # not produced yet
+        if ref['method'] == 'loopoutput':
+            return " ".join(strip_final_newlines(text_mode(c)) for c in contents)
+        return strip_final_newlines(contents[0])
+    return " ".join(paths)
+
+
+def source_of(ref, case):
+    """what the model's DataReference.resolve is given: paths and RAW file contents"""
+    paths, keys = places_of(ref, case)
+    if ref['kind'] == 'output':
+        contents = [case['files'].get(k) for k in keys]
+        if ref['method'] == 'loopoutput':
+            return {"t": "files", "cs": contents}
+        return {"t": "file", "c": contents[0]}
+    if ref['method'] == 'loopref':
+        return {"t": "paths", "ps": paths}
+    return {"t": "path", "p": paths[0]}
+
+
+def judged_by_oracle(ref, case):
+    """a :loopoutput file with carriage returns is read in text mode (CRLF -> LF) while :output keeps them; the
+    property does not say which is right, such values are compared with the model only"""
+    if ref['method'] != 'loopoutput':
+        return True
+    _, keys = places_of(ref, case)
+    return not any("\r" in (case['files'].get(k) or "") for k in keys)
 
 
 def my_refs(case, order=None):
@@ -80,10 +145,13 @@ def expected(case, args, order=None):
     refs = my_refs(case, order)
     table = {}
     owner = {}
+    quirk = False
     for r in refs:
         if r['kind'] == 'other':
             continue
-        v = value_of(r, case['files'])
+        v = value_of(r, case)
+        if not judged_by_oracle(r, case):
+            quirk = True
         for sp in [r['abs']] + ([r['rel']] if r['relActive'] else []):
             if sp in table and table[sp] != v:
                 return None, None, True          # two declared references share a spelling: not well formed
@@ -92,7 +160,7 @@ def expected(case, args, order=None):
     out = []
     used = set()
     pos = 0
-    ambiguous = False
+    ambiguous = quirk
     for m in TOKEN.finditer(args):
         tok = m.group(0)
         out.append(args[pos:m.start()])
@@ -137,7 +205,15 @@ def flowir_for(case, order):
                          if read_ref(t, case['stage'])['kind'] != 'other') or "hi"
     comps.append({'name': case['consumer'], 'stage': case['stage'],
                   'command': {'executable': 'echo', 'arguments': canonical}, 'references': refs})
-    return yaml.safe_dump({'components': comps}), canonical
+    lp = case.get('loop')
+    dowhile = None
+    if lp:
+        comps.append({'name': LOOP_IMPORT, 'stage': lp['stage'], '$import': 'dowhile.yaml'})
+        dowhile = yaml.safe_dump({
+            'type': 'DoWhile', 'condition': '%s:output' % LOOP_STOP, 'inputBindings': {},
+            'components': [{'name': n, 'command': {'executable': 'echo', 'arguments': 'hi'}} for n in lp['names']] +
+                          [{'name': LOOP_STOP, 'command': {'executable': 'echo', 'arguments': 'True'}}]})
+    return yaml.safe_dump({'components': comps}), canonical, dowhile
 
 
 class Impl:
@@ -150,15 +226,22 @@ class Impl:
     def run(self, case, order, arg_list):
         TU, experiment = _imports()
         self.n += 1
-        text, canonical = flowir_for(case, order)
+        text, canonical, dowhile = flowir_for(case, order)
         pkg_path = os.path.join(self.workdir, 'p%d.package' % self.n)
         os.makedirs(os.path.join(pkg_path, 'conf'))
         with open(os.path.join(pkg_path, 'conf', 'flowir_package.yaml'), 'w') as fh:
             fh.write(text)
+        if dowhile is not None:
+            with open(os.path.join(pkg_path, 'conf', 'dowhile.yaml'), 'w') as fh:
+                fh.write(dowhile)
         data = {k: v for k, v in case['files'].items() if k.startswith('data/')}
         for d in case.get('data', []):
             data.setdefault('data/' + d, 'x')
-        TU.populate_files(pkg_path, data)
+        for k, v in data.items():
+            # byte exact: no newline translation, no stripping
+            os.makedirs(os.path.dirname(os.path.join(pkg_path, k)), exist_ok=True)
+            with open(os.path.join(pkg_path, k), 'wb') as fh:
+                fh.write(v.encode('utf-8'))
         cwd = os.getcwd()
         exp = None
         try:
@@ -169,6 +252,17 @@ class Impl:
                 return {"load_error": type(exc).__name__ + ": " + str(exc)[:300]}
             inst = exp.instanceDirectory
             loc = inst.location
+            lp = case.get('loop')
+            if lp and lp['iters'] > 1:
+                # the real mechanism that creates the loop instances 1#name, 2#name, ... of a DoWhile
+                try:
+                    import experiment.model.frontends.flowir as FL
+                    wg = exp.experimentGraph
+                    doc = list(wg._documents[FL.FlowIR.LabelDoWhile].values())[0]['document']
+                    for it in range(1, lp['iters']):
+                        wg.instantiate_dowhile_next_iteration(doc, it, False)
+                except Exception as exc:  # noqa
+                    return {"load_error": "next iteration: " + type(exc).__name__ + ": " + str(exc)[:300]}
             for key, content in case['files'].items():
                 if key.startswith('data/'):
                     continue
@@ -176,8 +270,8 @@ class Impl:
                 wd = inst.workingDirectoryForComponent(int(m.group(1)), m.group(2))
                 target = os.path.join(wd, m.group(3))
                 os.makedirs(os.path.dirname(target), exist_ok=True)
-                with open(target, 'w') as fh:
-                    fh.write(content)
+                with open(target, 'wb') as fh:
+                    fh.write(content.encode('utf-8'))
             spec = exp.experimentGraph.graph.nodes['stage%d.%s' % (case['stage'], case['consumer'])][
                 'componentSpecification']
             seen = [dict(abs=r.absoluteReference, rel=r.relativeReference, stage=r.stageIndex, method=r.method)
@@ -219,9 +313,47 @@ FAMILIES = [
 FILES = [None, None, "out.txt", "t/out.txt", "out"]
 CONTENTS = ["hello", "A:ref", "stage0.A:ref x", "BA:ref -k", "v=1\n", "", "line1\nline2\n\n", "data/A:ref",
             ":ref", "1 2 3\n", "gen:ref regen:ref", "x:ref xx:ref stage1.x:ref", "stage0.run/out.txt:output"]
+# white space that belongs to a file's contents: before the text, inside it, after it, and the terminating newlines
+LEADS = ["", "", "", " ", "  ", "\t", "\n", "\n\n", " \n", "\r\n", "\t ", "    ", "\x0b", "\x0c", "\u00a0", "\u2003"]
+BODIES = ["hello", "ATOM      1  N   ALA A   1", "col1\tcol2\t", "a\n\nb", "l1\r\nl2", "l1\nl2\n l3", "1 2 3", "v=1",
+          "", "", "A:ref", "stage0.A:ref x", "BA:ref -k", "gen:ref regen:ref", " x:ref xx:ref ", "stage0.run/out.txt:output",
+          ":output", "A:loopoutput", "w" * 1500, "k=" + "0123456789 " * 40]
+TRAILS = ["", "\n", "\n", "\n", "\n\n", " ", "  \n", "\t\n", "\t", " \n\n", "\r\n", "\r", "\n \n", "\n\t", "\r\n\r\n",
+          "\x0c\n", "\u00a0\n", "\n\r", " \t \n\n\n"]
+
+
+def gen_content(rng):
+    if rng.random() < 0.2:
+        return rng.choice(CONTENTS)
+    return rng.choice(LEADS) + rng.choice(BODIES) + rng.choice(TRAILS)
+
+
+def content_tags(text):
+    tags = []
+    if text == "":
+        tags.append("content:empty")
+    elif text.strip() == "":
+        tags.append("content:white-space-only")
+    else:
+        core = strip_final_newlines(text)
+        if core != core.lstrip():
+            tags.append("content:leading-white-space")
+        if core != core.rstrip():
+            tags.append("content:trailing-white-space-before-final-newlines")
+        if "\n" in core.strip():
+            tags.append("content:interior-newline")
+    if "\r" in text:
+        tags.append("content:CR")
+    if len(text) > 400:
+        tags.append("content:long")
+    if TOKEN.search(text):
+        tags.append("content:reference-like")
+    return tags
+
+
 SEPS = [" ", "=", " -f=", " --opt=", ",", ";", " '", "(", " -I ", "  ", ":", " x=", "|"]
 LITS = ["", "", " ", "-v", " && ", "ref", ":", "stage0.", "B", "A", ":re", "A:", "/", "out.txt", "'", ")", ">log",
-        " Z:ref", " stage7.Q/x:output", ":ref", " q:copy", "x", ".txt", "erence", "2", "-", "_"]
+        " Z:ref", " stage7.Q/x:output", ":ref", " q:copy", "x", ".txt", "erence", "2", "-", "_", "\t", " \t ", "\n"]
 
 
 def gen_scenario(rng):
@@ -249,12 +381,37 @@ def gen_scenario(rng):
     for st, name in producers:
         for f in rng.sample(FILES, 2):
             path = name if f is None else name + "/" + f
-            meths = ["ref", "ref", "ref"] + (["output", "output"] if f is not None else []) + ["copy", "link"]
+            meths = ["ref", "ref", "ref"] + (["output", "output"] if f is not None else ["output"]) + ["copy", "link"]
             spell = rng.choice(["abs", "abs", "rel"]) if st == k else "abs"
             cands.append((("stage%d." % st if spell == "abs" else "") + path + ":" + rng.choice(meths), st, name, f))
+    loop = None
+    if rng.random() < 0.4:
+        # a real DoWhile: its components are placeholders with loop instances 0#name .. (iters-1)#name
+        ls = rng.randint(0, k)
+        free = [n for n in fam if [ls, n] not in producers]
+        if free:
+            loop = dict(stage=ls, names=rng.sample(free, rng.randint(1, min(2, len(free)))), iters=rng.randint(1, 3))
+            for name in loop['names']:
+                for f in rng.sample(FILES, 2):
+                    path = name if f is None else name + "/" + f
+                    meths = ["loopref", "loopoutput", "loopoutput", "ref", "output", "output"]
+                    spell = rng.choice(["abs", "abs", "rel"]) if ls == k else "abs"
+                    cands.append((("stage%d." % ls if spell == "abs" else "") + path + ":" + rng.choice(meths),
+                                  ls, name, f))
     for d in data:
-        cands.append(("data/%s:%s" % (d, rng.choice(["ref", "ref", "output"])), None, d, None))
+        cands.append(("data/%s:%s" % (d, rng.choice(["ref", "output", "output"])), None, d, None))
     rng.shuffle(cands)
+    # make sure the interesting kinds are declared: a reference to a looped producer when there is a loop (an
+    # aggregating one most of the time), and usually one whose value is a file's contents
+    front = []
+    if loop:
+        lc = [c for c in cands if c[1] == loop['stage'] and c[2] in loop['names']]
+        agg = [c for c in lc if ":loop" in c[0]]
+        front.append(rng.choice(agg) if agg and rng.random() < 0.75 else rng.choice(lc))
+    outs = [c for c in cands if c[0].endswith("output") and c not in front]
+    if outs and rng.random() < 0.7:
+        front.append(rng.choice(outs))
+    cands = front + [c for c in cands if c not in front]
     nrefs = rng.choice([2, 3, 3, 4, 4])
     refs, seen_abs = [], set()
     for text, st, name, f in cands:
@@ -264,17 +421,20 @@ def gen_scenario(rng):
         seen_abs.add(r['abs'])
         refs.append(text)
         if r['kind'] == 'output':
-            key = ("stage%d.%s" % (st, r['path'])) if st is not None else r['path']
-            if rng.random() < 0.85:
-                files[key] = rng.choice(CONTENTS)
+            for key in places_of(r, dict(loop=loop))[1]:
+                if rng.random() < 0.9:
+                    files[key] = gen_content(rng)
         if len(refs) >= nrefs:
             break
     for d in data:
-        files.setdefault('data/' + d, rng.choice(CONTENTS))
+        files.setdefault('data/' + d, gen_content(rng))
     consumer = rng.choice(["C", "C", "cons", "ZA"])
-    while [k, consumer] in producers:
+    while [k, consumer] in producers or (loop and loop['stage'] == k and consumer in loop['names']):
         consumer += "c"
-    return dict(stage=k, consumer=consumer, producers=producers, data=data, files=files, refs=refs)
+    scen = dict(stage=k, consumer=consumer, producers=producers, data=data, files=files, refs=refs)
+    if loop:
+        scen['loop'] = loop
+    return scen
 
 
 def gen_segs(rng, scen, style):
@@ -329,6 +489,20 @@ CORPUS = [
          files={"stage0.A/out.txt": "hello A:ref stage1.A:ref\n\n"},
          refs=["stage0.A/out.txt:output", "A:ref"],
          segs=[["lit", "x="], ["tok", "A:ref"], ["lit", " "], ["tok", "stage0.A/out.txt:output"]]),
+    # file contents with white space at both ends, tabs, CR, blank lines: only the final newlines are not part of the value
+    dict(stage=1, consumer="C", producers=[[0, "A"], [1, "A"]], data=["hdr"],
+         files={"stage0.A/rec.pdb": "  ATOM      1  N   ALA A   1  \n", "data/hdr": "\tindented header\t\n\n",
+                "stage0.A/out.stdout": "\n v \r\n", "stage1.A/out.stdout": " \n"},
+         refs=["stage0.A/rec.pdb:output", "data/hdr:output", "stage0.A:output", "A:output"],
+         segs=[["lit", "-r=("], ["tok", "stage0.A/rec.pdb:output"], ["lit", ") -h=("], ["tok", "data/hdr:output"],
+               ["lit", ") -o=("], ["tok", "stage0.A:output"], ["lit", ") -p=("], ["tok", "A:output"], ["lit", ")"]]),
+    # loop instances of a DoWhile: :loopoutput / :loopref aggregate, :output / :ref see the latest instance
+    dict(stage=1, consumer="C", producers=[[0, "B"]], data=[], loop=dict(stage=0, names=["A", "BA"], iters=2),
+         files={"stage0.0#A/out.stdout": "  a0 \n\n", "stage0.1#A/out.stdout": "\ta1\t\n",
+                "stage0.0#BA/out.txt": " b0", "stage0.1#BA/out.txt": "\n\nb1 \n"},
+         refs=["stage0.A:loopoutput", "stage0.BA/out.txt:loopoutput", "stage0.A:loopref", "stage0.A:output"],
+         segs=[["lit", "-a=("], ["tok", "stage0.A:loopoutput"], ["lit", ") -b=("], ["tok", "stage0.BA/out.txt:loopoutput"],
+               ["lit", ") -d "], ["tok", "stage0.A:loopref"], ["lit", " -l=("], ["tok", "stage0.A:output"], ["lit", ")"]]),
     # well separated names (the situation the repository's tests cover)
     dict(stage=1, consumer="C", producers=[[0, "first"], [0, "second"]], data=["in"], files={"data/in": "7\n"},
          refs=["stage0.first:ref", "stage0.second/out.txt:ref", "data/in:output"],
@@ -345,7 +519,7 @@ def model_request(case, order, args):
     refs = my_refs(case, order)
     return {"op": "resolve", "args": args,
             "refs": [dict(abs=r['abs'], rel=r['rel'], relActive=r['relActive'], kind=r['kind'],
-                          value=value_of(r, case['files'])) for r in refs]}
+                          source=source_of(r, case)) for r in refs]}
 
 
 def orders_of(ctx, refs, limit):
@@ -381,6 +555,17 @@ def check_scenario(ctx, impl, scen, seg_lists, perm_limit, label):
             qi += len(arg_list)
             continue
         mine = my_refs(base, order)
+        vtags = set()
+        for r in mine:
+            if r['kind'] == 'other':
+                continue
+            vtags.add("method:" + r['method'] + ("@placeholder" if is_looped(r, base) else ""))
+            if r['kind'] == 'output':
+                for key in places_of(r, base)[1]:
+                    c = base['files'].get(key)
+                    vtags.update(["content:missing"] if c is None else content_tags(c))
+        if base.get('loop'):
+            vtags.add("loop:iters=%d" % base['loop']['iters'])
         ctx.compare("spec.dataReferences spellings == harness reading of the declaration",
                     dict(base, refs=list(order), segs=[]),
                     [dict(abs=r['abs'], rel=r['rel'], stage=r['stage'], method=r['method']) for r in mine],
@@ -393,7 +578,7 @@ def check_scenario(ctx, impl, scen, seg_lists, perm_limit, label):
             overlap = overlapping(mine)
             tags = [label, "refs:%d" % len(order), "overlap" if overlap else "no-overlap",
                     "ambiguous" if ambiguous else "unambiguous",
-                    "impl:" + ("error" if "error" in out else "ok")]
+                    "impl:" + ("error" if "error" in out else "ok")] + sorted(vtags)
             ctx.case(case, nontrivial=(ntok >= 2 and len(order) >= 2), tags=tags)
             if "error" in out:
                 ctx.fail("resolveArguments-raises", case, out)
@@ -520,6 +705,10 @@ def make_shrinker(ctx, impl):
             cand = dict(case, producers=[x for x in case['producers'] if x != p])
             if fails(cand):
                 case = dict(cand, refs=fails(cand))
+        for key in list(case['files']):
+            cand = dict(case, files={k: v for k, v in case['files'].items() if k != key})
+            if fails(cand):
+                case = dict(cand, refs=fails(cand))
         return case
 
     return shrink
@@ -536,18 +725,25 @@ def check_methods(ctx):
 
 
 def run(ctx):
-    ctx.rule = ("case = (producer set over stages 0..2 drawn from 6 families of mutually overlapping names, consumer "
-                "stage, 2-4 declared references in one declaration order mixing :ref/:output/:copy/:link, absolute and "
-                "relative spellings, data/ direct references, files whose contents look like references, argument string "
-                "built from separators, noise text and reference tokens); every declaration order (all permutations of "
-                "<= 4 references) is built as its own real Experiment; non-trivial = >= 2 declared references and >= 2 "
-                "reference tokens in the argument string; distinct by canonical JSON of the case")
+    ctx.rule = ("case = (producer set over stages 0..2 drawn from 6 families of mutually overlapping names, optionally a real "
+                "DoWhile whose 1-2 looped components have 1-3 loop instances, consumer stage, 2-4 declared references in one "
+                "declaration order mixing :ref/:output/:loopref/:loopoutput/:copy/:link (to working directories, files, "
+                "stdout, placeholders), absolute and relative spellings, data/ direct references, byte-exact files whose "
+                "contents carry white space at both ends (blanks, tabs, VT/FF, NBSP, blank lines, CR/CRLF), are empty / "
+                "white-space only / missing / very long / look like references, argument string built from separators, noise "
+                "text and reference tokens); every declaration order (all permutations of <= 4 references) is built as its "
+                "own real Experiment; non-trivial = >= 2 declared references and >= 2 reference tokens in the argument "
+                "string; distinct by canonical JSON of the case")
     ctx.assumptions = [
         "argument strings and file contents contain no '%' and no '[': the final FlowIR.fill_in (variable interpolation, "
         "array access) is then the identity and is not part of this property",
         "an undeclared token that merely ends in a declared spelling (xA:ref with only A declared) is rejected by the "
         "loader (FlowIRUnknownReferenceInArguments); such strings are compared with the model but not judged by the oracle",
-        "the value of an :output reference is the file's text without trailing newlines (\"\" while the file is missing)",
+        "the value of an :output reference is the file's decoded text minus the newline characters that terminate it and "
+        "nothing else (\"\" while the file is missing); a :loopoutput reference is the blank-joined list of these per loop "
+        "instance; files are valid UTF-8",
+        "the :loopoutput branch reads in text mode (CRLF and CR become LF) while :output keeps carriage returns: values of "
+        ":loopoutput references whose files contain CR are compared with the model only, not judged by the oracle",
         "argument strings other than the canonical one are installed with setOption('#command.arguments') on the loaded "
         "experiment (the loader refuses undeclared reference-like text, which the property wants left untouched)",
     ]
